@@ -100,8 +100,15 @@ def replay_case(c):
                 row = {f: py(a['row'][i]) for i, f in enumerate(schema)}
                 srcs = [schema[i - 1] for i in a['src']]
                 with_ = {'join': '-', 'format': '{%s}-x' % srcs[0], 'constant': 'K'}.get(a['cop'], '')
+                # the abstract constant "K" is bound to several concrete constants, the falsy ones included (0, False, 0.0 are values, not "no constant");
+                # the argument is spelt with_= or with=
+                cval = None
+                if a['cop'] == 'constant':
+                    h = sum(map(ord, json.dumps(c, sort_keys=True)))
+                    cval = with_ = ['K', 0, False, 0.0, 7, ''][h % 6]
+                kw = {'with': with_} if (a['cop'] == 'constant' and sum(map(ord, json.dumps(c, sort_keys=True))) % 2) else {'with_': with_}
                 ds = Flow(tuple_source([('t', [(f, 'integer') for f in schema], [row])]),
-                          DF.add_computed_field(target='z', operation=a['cop'], source=srcs, with_=with_)).datastream()
+                          DF.add_computed_field(target='z', operation=a['cop'], source=srcs, **kw)).datastream()
                 out = [[dict(r) for r in res] for res in ds.res_iter][0]
                 fields = [f['name'] for f in ds.dp.descriptor['resources'][0]['schema']['fields']]
             else:
@@ -139,7 +146,10 @@ def replay_case(c):
             return dict(ok=False, why='row keys differ from the resulting schema', got=sorted(r.keys()))
         if any(norm_real(r[f]) != norm_real(py(c['arg']['row'][i])) for i, f in enumerate(schema)):
             return dict(ok=False, why='an untouched field changed', got=r)
-        if norm_real(r['z']) != norm_spec(c['result'][0]):
+        if c['arg']['cop'] == 'constant':
+            if r['z'] != cval or type(r['z']) is not type(cval):
+                return dict(ok=False, why='the constant field does not hold the constant', got=repr(r['z']), want=repr(cval))
+        elif norm_real(r['z']) != norm_spec(c['result'][0]):
             return dict(ok=False, why='computed value differs', got=repr(r['z']), want=c['result'][0])
         return dict(ok=True)
     r = out[0]
